@@ -1,4 +1,2 @@
 #include "wc_common.hh"
-void wc::run_grid_case() {}
-void wc::run_pps_case(bool) {}
 void wc::run_ppsgrid_case() {}
